@@ -273,6 +273,9 @@ func TryLocked(m *sync.Mutex, wait time.Duration) bool {
 func HeldAgentLocks(ts *server.Teamserver, wait time.Duration) []string {
 	var held []string
 	for _, a := range ts.Agents.Agents {
+		if TryLocked(&a.JobMtx, wait) {
+			held = append(held, a.NameID+".JobMtx")
+		}
 		if TryLocked(&a.PortFwdsMtx, wait) {
 			held = append(held, a.NameID+".PortFwdsMtx")
 		}
